@@ -160,7 +160,7 @@ def check_sim(case) -> Result:
             res.bad(f'C14/simulation/raises/{type(err).__name__}', f'no conflict predicted but the run raised '
                     f'{type(err).__name__}: {err}')
     res.nontrivial = overl or outside
-    res.classes += ('conflict' if overl else 'no-conflict', 'out-of-range-proposal' if outside else 'in-range',
+    res.classes += ('self-locking' if mdl.self_locking else 'free', 'conflict' if overl else 'no-conflict', 'out-of-range-proposal' if outside else 'in-range',
                     'ambiguous' if amb_seen else 'predicted')
     return res
 
@@ -211,7 +211,10 @@ def s_direct(draw):
 
 @st.composite
 def s_sim(draw, max_steps=40):
-    case, mdl = draw(C15.s_base(max_len=3))
+    # self-locking chains included: arbitration must be applied at every instant, also while the powertrain is held
+    case, mdl = draw(C15.s_base(max_len=3, locking=draw(st.sampled_from([False, None, True]))))
+    if mdl.self_locking and draw(st.booleans()):
+        case['load']['c0'] = mdl.stall_out * draw(st.floats(1.0, 5.0)) * draw(st.sampled_from([1, -1]))
     run = G.s_run(draw, mdl, min_steps=5, max_steps=max_steps)
     T = U.si('TimeInterval', *run['T'])
     rules = []
